@@ -80,7 +80,14 @@ HOSTS = ["Aggregate({X}, 0, lambda a, v: a + v)", "Aggregate(ds, {X}, lambda a, 
          # lambda parameters spelled like the shortcut names, visited before / after / around a real shortcut call
          "[Select(ds, lambda Sum: Sum + 1), {X}]", "[{X}, Select(ds, lambda Sum: Sum + 1)]",
          "f(lambda Count, len: Count, {X}, lambda Max, Min: Max)", "(lambda len: len)({X})",
-         "Select(ds, lambda Sum: Sum + {X})", "Select(Select(ds, lambda Count: Count), lambda v: {X})"]
+         "Select(ds, lambda Sum: Sum + {X})", "Select(Select(ds, lambda Count: Count), lambda v: {X})",
+         # a shortcut below two or more chained attributes / below a call between attributes
+         "({X}).real.imag", "f({X}).inner.value", "({X}).a.b.c(1)", "box({X}).get().inner.value", "obj.a.b.m({X}).c.d",
+         # a shortcut-named call with ANOTHER number of arguments directly as the sequence of a real shortcut (and the reverse)
+         "Sum(Max({X}, {X}))", "len(Count())", "Max(Sum({X}, 1, 2))", "Count(Min(k={X}))", "Sum(Max({X}, {X}), 1)",
+         "Min(Sum(Max({X}, 1)))", "Sum(len())",
+         # keyword and starred arguments of ordinary calls with one positional argument
+         "pick({X}, n={X})", "pick(ds, n={X})", "pick(*[{X}, ds])", "pick(Select(ds, lambda v: {X}), n=2)", "Max(ds, key={X})", "Sum(*{X})"]
 HOST_XS = ["Count(ds)", "len(Select(ds, lambda v: v + 1))", "Sum(ds)", "Max(Where(ds, lambda v: v > Min(ds)))", "Count(Count(ds))",
            # written-out sequences (also with starred entries) are sequences like any other
            "len([1, 2])", "Count((ds, ds))", "len([*ds, 0])", "Sum([])", "Max((1,))", "len([v for v in ds])"]
@@ -114,11 +121,16 @@ OTHER_NAMES = ["foo", "e", "n", "t", "l", "C", "le", "en", "ount", "Coun", "lenC
 
 
 class _RefLower(ast.NodeTransformer):
-    "independent reference: exactly the one-argument calls are lowered; placeholder fold lambdas"
+    """independent reference: exactly the one-argument calls are lowered; placeholder fold lambdas.  A single STARRED
+    argument (Sum(*parts)) is an unknown number of arguments: the statement does not say - both readings are accepted"""
+
+    def __init__(self, starred_is_one_argument=False):
+        self.starred = starred_is_one_argument
 
     def visit_Call(self, node):
         self.generic_visit(node)
-        if isinstance(node.func, ast.Name) and node.func.id in AGG and len(node.args) == 1 and not node.keywords:
+        if isinstance(node.func, ast.Name) and node.func.id in AGG and len(node.args) == 1 and not node.keywords and \
+                (self.starred or not isinstance(node.args[0], ast.Starred)):
             kind = {"len": "count", "Count": "count", "Sum": "sum", "Max": "max", "Min": "min"}[node.func.id]
             return ast.Call(ast.Name("Aggregate", ast.Load()),
                             [node.args[0], ast.Constant(0), ast.Name(f"__fold_{kind}", ast.Load())], [])
@@ -234,8 +246,9 @@ class C19(Check):
         if ast.dump(q) != before:
             raise RuntimeError("harness: deepcopy was mutated")
         ref = _NormFolds().visit(_RefLower().visit(copy.deepcopy(q)))  # folds the user wrote are classified alike
+        ref2 = _NormFolds().visit(_RefLower(True).visit(copy.deepcopy(q)))
         got = _NormFolds().visit(copy.deepcopy(r))
-        if ast.dump(got) != ast.dump(ref):
+        if ast.dump(got) not in (ast.dump(ref), ast.dump(ref2)):
             res["oc"].append("struct-diff")
             res["viol"].append({"kind": "differs-from-reference-lowering", "canon": canon,
                                 "msg": f"got {ast.unparse(got)[:220]} expected {ast.unparse(ref)[:220]}"})
